@@ -35,6 +35,9 @@ STREAMS = {
         "bfs_w": ("bfs", "6 2 4 2 cw"),
         "bfs_a": ("bfs", "6 2 3 2 ca"),
         "bfs_n": ("bfs", "6 2 4 2 nwa"),
+        "shp4": ("shapes", "4 5 4"),
+        "shp3": ("shapes", "3 6 6"),
+        "shp5": ("shapes", "5 2 2"),
         "rand_cw": ("gen", ("cw", 3000, 14)),
         "rand_cwf": ("gen", ("cwf", 3000, 10)),
         "rand_cws": ("gen", ("cws", 3000, 12)),
@@ -54,6 +57,9 @@ STREAMS = {
         "bfs_w": ("bfs", "7 2 4 2 cw"),
         "bfs_a": ("bfs", "7 2 3 2 ca"),
         "bfs_n": ("bfs", "7 2 4 2 nwa"),
+        "shp4": ("shapes", "4 5 8"),
+        "shp5": ("shapes", "5 4 2"),
+        "shp3": ("shapes", "3 9 6"),
         "rand_cw": ("gen", ("cw", 40000, 20)),
         "rand_cwf": ("gen", ("cwf", 40000, 14)),
         "rand_cws": ("gen", ("cws", 40000, 16)),
@@ -89,6 +95,11 @@ def stream_lines(name, tier, seed):
         m = re.search(r"states=(\d+) transitions=(\d+)", p.stderr.decode())
         meta = {"states": int(m.group(1)), "transitions": int(m.group(2)), "scope": arg, "exhaustive": True}
         return [name + "_" + l for l in lines], meta
+    if kind == "shapes":
+        p = subprocess.run([P.DRIVER, "shapes"] + arg.split(), stdout=subprocess.PIPE, stderr=subprocess.PIPE)
+        lines = [l for l in p.stdout.decode().strip().split("\n") if l]
+        return [name + "_" + l for l in lines], {"scope": "all fully recorded adoption graphs: objects, max distinct edges (one may be doubled), drop orders = " + arg,
+                                                  "exhaustive": True, "states": 0, "transitions": len(lines)}
     if kind == "gen":
         prof, count, ln = arg
         # one PRNG state per stream, derived from the seed and the stream name
